@@ -26,6 +26,8 @@ OUTSIDE = {
  "r14-C15-v1": "a recovery that waits for the end of the request body is slow, not wrong; the body of the case ends after 300 ms (third review)",
  "r13-C03-v2": "whether an informational status counts as 'written' is C13's to say (third review; C13 reports it)",
  "r14-C03-v2": "whether a Write of no bytes counts as 'written' is C13's to say (third review; C13 reports it)",
+ "r17-C05-v1": "a memo inside the injector keyed by the printed signature: C05 has no two handler types that print alike (C04, whose generator has them, reports it at once, without any concurrency)",
+ "r17-C18-v1": "what a regex bind made of several groups captures is decided before any accessor runs: C18 sends its values through a placeholder route (C02, which generates such expressions, reports it)",
  "r16-C11-v1": "the defect shows through Headers(), which is not part of C11 (C09 and C10 report it)",
  "C07-v1": "needs nested groups with spare capacity: C07 declares flat routes (C03 and C11 report it)",
  "r10-C01-v2": "the defect is in how group paths are joined: C01 registers flat route sets (C11 reports it)",
